@@ -252,6 +252,47 @@ def confirm_analyze(chk, category, pname, k, r):
     chk.undecide('analyze_for_%s(%s): symbolic counterexample (lines != lines of reported starts) did not reproduce on the probe file' % (category, pname))
 
 
+def native_layouts(chk):
+    """end to end on the compiled code: for every detector and several layouts of probe files (LF, CRLF, no final line feed,
+    blank lines, multi-byte header comment) the lines returned by analyze_for_* are the lines on which the detector's own
+    locations begin. This replays (b) on the real entry points, whatever helper they use to convert offsets."""
+    from .. import oracle, sol
+    from . import c15
+    b = sol.TreeBuilder()
+    base, _ = sol.print_source(c15.probe_file(b))
+    long_lines = base.replace('\n    ', ' ')          # constructs far to the right of long lines
+    layouts = {}
+    for nm, t in (('probe', base), ('long-lines', long_lines)):
+        layouts[nm + ' LF'] = t
+        layouts[nm + ' CRLF'] = t.replace('\n', '\r\n')
+        layouts[nm + ' CRLF no final line end'] = t.replace('\n', '\r\n').rstrip('\r\n')
+        layouts[nm + ' no final line feed'] = t.rstrip('\n')
+        layouts[nm + ' blank lines + multi-byte header'] = '// 版权所有 © 2022 — ünïcödé header €€€\n\n\n' + t.replace('\n', '\n\n')
+        layouts[nm + ' CR only inside a line'] = t.replace('{\n', '{ \r \n')
+    jobs, meta = [], []
+    for lname, text in layouts.items():
+        p = chk.native.file(text)
+        for d in oracle.MIR_NAME:
+            jobs.append(['detect', d, p]); jobs.append(['analyze', oracle.CATEGORY[d], d, p])
+            meta.append((lname, d, text))
+    res = chk.native.run(jobs)
+    for i, (lname, d, text) in enumerate(meta):
+        det, ana = res[2 * i], res[2 * i + 1]
+        chk.validated += 1
+        if det[0] != 'OK' or ana[0] != 'OK':
+            continue                                   # panics are C04's subject
+        raw = text.encode()
+        want = sorted({1 + raw[:int(x.split(':')[0])].count(b'\n') for x in det[1].split(',') if x})
+        got = [int(x) for x in ana[1].split(',') if x]
+        if got != want:
+            chk.violation('analyze:%s:wrong-lines' % oracle.CATEGORY[d],
+                          'analyze_for_%s(%s) on the layout `%s` returns lines %r, its locations begin on lines %r' % (oracle.CATEGORY[d], d, lname, got, want),
+                          {'job': 'analyze', 'category': oracle.CATEGORY[d], 'detector': d, 'source': text, 'expected': want, 'observed': got})
+        else:
+            chk.ok()
+    chk.sample({'native layouts': sorted(layouts), 'detectors': len(oracle.MIR_NAME)})
+
+
 def body(chk):
     T = 5 if chk.quick else 7
     chk.bounds = {'text length (characters)': '1..%d' % T, 'byte width per character': '1..4 (symbolic)',
@@ -264,6 +305,7 @@ def body(chk):
         check_line_number(chk, t)
     for cat in ('opt', 'vul', 'qa'):
         check_analyze(chk, cat, 3 if not chk.quick else 2)
+    native_layouts(chk)
 
 
 if __name__ == '__main__':
